@@ -57,6 +57,9 @@ def graph_orientation(A):
                 if not any(x.id == a.id for x in names):
                     continue
                 it = src(st.iter)
+                if isinstance(st.iter, ast.Name) and st.iter.id not in pair_lists:
+                    # `all_tasks = self.tasks.values()` ... `for t in all_tasks`: what the local was bound to
+                    it = src(subst_single_assign(A, f, st.iter))
                 if isinstance(st.iter, ast.Name) and st.iter.id in pair_lists and isinstance(st.target, ast.Tuple) and _depth > 0:
                     continue   # resolving an element of the pair list: only its own generators count
                 if isinstance(st.iter, ast.Name) and st.iter.id in pair_lists and isinstance(st.target, ast.Tuple):
